@@ -333,6 +333,19 @@ func safeRun(eng Engine, t *tape.Tape, keep bool) (res *Result) {
 	return eng.Run(t, keep)
 }
 
+// ScratchParent is where engines create their scratch directories: the worker
+// binary's own directory when that is the coordinator's run directory (which the
+// coordinator removes on exit, also after a worker was killed at the deadline),
+// else the system default.
+func ScratchParent() string {
+	if exe, err := os.Executable(); err == nil {
+		if d := filepath.Dir(exe); strings.Contains(filepath.Base(d), "verif-run.") {
+			return d
+		}
+	}
+	return ""
+}
+
 // HarnessPanic is panicked by engines for harness trouble.
 type HarnessPanic string
 
